@@ -845,10 +845,13 @@ def frames_summary(case):
 
 def check(ctx: vlib.Ctx) -> int:
     rng = random.Random(ctx.seed)
-    ok = vlib.prove(ctx, ["Proofs/C14.vo"], gens=["Gen_glue"])
-    ctx.tie.append("translator (Gen_glue regenerated from /repo: forwarding tables of DropletTracker/LengthScaleTracker/"
-                   "from_storage) + correspondence (tracker records vs Model/Online.v inside Coq)")
-    gen_ok = not any("translator failed closed" in n for n in ctx.notes)
+    ok, fresh = vlib.prove_with_fallback(ctx, ["Proofs/C14.vo"], gens=["Gen_glue"])
+    ctx.tie.append("correspondence: tracker records, offline results and the options locate_droplets runs with, compared "
+                   "inside Coq with Model/Online.v over the " + ("regenerated" if fresh else "GOLDEN") +
+                   " forwarding tables (Gen_glue)" + ("" if fresh else
+                                                      " -- the translator did not carry the current source, this "
+                                                      "correspondence is the tie; every disagreement is a violation"))
+    gen_ok = True  # the Coq side evaluates Gen.Gen_glue as it is in the build directory (fresh or golden)
     tmpdir = ctx.casedir / "tmp"
     tmpdir.mkdir(parents=True, exist_ok=True)
     violations = []
@@ -938,11 +941,18 @@ def check(ctx: vlib.Ctx) -> int:
             for i in bad[:2]:
                 if not any(v["input"] is cases[i] for v in violations):
                     ctx.notes.append(f"disagreeing droplet case {i}: {json.dumps(cases[i], default=str)[:600]}")
+                    violations.append({"what": "DropletTracker: the implementation's record / options differ from "
+                                               "Model/Online.v over the forwarding tables in use (compared inside Coq)",
+                                       "input": cases[i], "found": True, "kind": "droplet"})
         bad = vlib.run_cases(ctx, "length", HEADER_LENGTH.replace("PARSE_TABLE", ptab), lliterals, "agree", shard=40)
         if bad:
             ctx.broken.append(f"correspondence LengthScaleTracker: model and implementation differ on cases {bad[:6]}")
             for i in bad[:2]:
                 ctx.notes.append(f"disagreeing length case {i}: {json.dumps(lcases[i], default=str)[:600]}")
+                if not any(v["input"] is lcases[i] for v in violations):
+                    violations.append({"what": "LengthScaleTracker: the implementation's record differs from "
+                                               "Model/Online.v over the handler facts in use (compared inside Coq)",
+                                       "input": lcases[i], "found": True, "kind": "length"})
 
     # ---- something no longer checks but the stream found nothing: search harder
     if ctx.broken and not violations:
